@@ -47,7 +47,7 @@ type target struct {
 
 var targets = []target{
 	{Pkg: "go.brendoncarroll.net/p2p/p/kademlia", Funcs: []string{"min", "LeadingZeros", "XORBytes", "HasPrefix",
-		"Distance", "DistanceCmp", "DistanceLt", "DistanceGt", "DistanceLz", "Cache.bucketIndex", "pop", "contains", "dhtIterate"},
+		"Distance", "DistanceCmp", "DistanceLt", "DistanceGt", "DistanceLz", "Cache.bucketIndex", "pop", "contains", "dhtIterate", "DHTGet", "DHTPut", "DHTFindNode", "DHTJoin"},
 		OpaqueRecv: []string{"Cache"}, Consume: []string{"pop.xs", "dhtIterate.nodes"}, Stateful: []string{"dhtIterate.fn"}},
 	{Pkg: "go.brendoncarroll.net/p2p/p/mbapp", Funcs: []string{"mask", "maskInverse", "newBitMap", "bitMap.len",
 		"bitMap.set", "bitMap.get", "bitMap.allSet", "ParseMessage", "getBit", "setBit", "unsetBit",
@@ -65,7 +65,7 @@ var targets = []target{
 	{Pkg: "go.brendoncarroll.net/p2p/p/p2pke", Funcs: []string{"newMessage", "ParseMessage", "Message.GetNonce",
 		"Message.SetNonce", "Message.HeaderBytes", "Message.Body", "IsInitHello", "IsRespHello", "IsHello", "IsPostHandshake",
 		"Session.canSend", "Session.canReceive", "Session.IsReady"}, OpaqueRecv: []string{"Session"}},
-	{Pkg: "go.brendoncarroll.net/p2p", Funcs: []string{"VecSize", "VecBytes"}},
+	{Pkg: "go.brendoncarroll.net/p2p", Funcs: []string{"VecSize", "VecBytes", "PeerID.IsZero"}},
 	{Pkg: "golang.zx2c4.com/wireguard/replay", Funcs: []string{"Filter.Reset", "Filter.ValidateCounter"}},
 }
 
